@@ -24,6 +24,11 @@ var VariablesInAllowedPositionRule = Rule{
 					tmp.NonNull = false
 				}
 			}
+			// Likewise if the argument or input field itself declares a default value
+			// (IsVariableUsageAllowed: hasLocationDefaultValue).
+			if value.ExpectedTypeHasDefault && value.ExpectedType.NonNull {
+				tmp.NonNull = false
+			}
 
 			if !value.VariableDefinition.Type.IsCompatible(&tmp) {
 				addError(
